@@ -106,3 +106,20 @@ Lemma C13_emission_helpers_as_modelled :
   append_indent_body = "{ b = append(b, ctx.Prefix...) indentNum := ctx.BaseIndent + indent for i := uint32(0); i < indentNum; i++ { b = append(b, ctx.IndentStr...) } return b }" /\
   marshal_indent_cut = "buf = buf[:len(buf)-2]".
 Proof. repeat split; reflexivity. Qed.
+
+(* ---- Colorize (Model/EncColor.v): the emission discipline with every scalar and every key between the header and
+   the footer of its kind ---- *)
+From GJ Require Import Model.EncColor Proofs.EncColorP Gen.ColorShape.
+(* vm_color/util.go and vm_color_indent/util.go, as the translator read them: every scalar helper and appendStructKey
+   writes header, the uncoloured text, footer *)
+Theorem C13_colour_helpers_wrap : colour_helpers_wrap = true.
+Proof. reflexivity. Qed.
+(* for every scheme (markers of any bytes) and every value: the coloured output is the uncoloured output with markers
+   inserted -- removing exactly the markers gives Marshal's bytes *)
+Theorem C13_colour_is_marshal_plus_markers : forall s v,
+  marshal_color s v = all_bytes (render_p s v) /\ text_bytes (render_p s v) = marshal v.
+Proof. intros s v. split; [apply colour_is_pieces|apply colour_without_markers_is_marshal]. Qed.
+Print Assumptions C13_colour_is_marshal_plus_markers.
+(* and with the empty scheme it is Marshal's bytes as they stand *)
+Theorem C13_empty_scheme_is_marshal : forall v, marshal_color no_colour v = marshal v.
+Proof. exact empty_scheme_is_marshal. Qed.
